@@ -656,7 +656,12 @@ def stage_edges(ctx, st):
         for hist in sel_states:
             rs = draw(rbuckets, nreads) if reads else []
             ws = draw(wbuckets, nwrites) if writes else []
-            if rs:
+            # the reads on one state are spread over several histories: the replay gives every history collection
+            # names of another length (keys, buffers and whatever is derived from names then vary in size too)
+            parts = max(1, min(st.get("split", 6), len(rs) // 8))
+            for cp in range(st.get("copies", 0) if rs else 0):
+                # ... or replayed as they are in `copies` histories, which the replay spreads over a grid of name
+                # lengths and readings of the model's numbers
                 f.write(json.dumps({"op": "Reset", "numTable": "general", "timeTable": "general"}) + "\n")
                 for e in hist:
                     f.write(json.dumps(dict(e, audit=True)) + "\n")
@@ -664,6 +669,15 @@ def stage_edges(ctx, st):
                     f.write(json.dumps(dict(e, audit=False)) + "\n")
                 nh += 1
                 ne += len(hist) + len(rs)
+            for part in range(parts if rs and not st.get("copies") else 0):
+                f.write(json.dumps({"op": "Reset", "numTable": "general", "timeTable": "general"}) + "\n")
+                for e in hist:
+                    f.write(json.dumps(dict(e, audit=True)) + "\n")
+                chunk = rs[part::parts]
+                for e in chunk:
+                    f.write(json.dumps(dict(e, audit=False)) + "\n")
+                nh += 1
+                ne += len(hist) + len(chunk)
             for w in ws:
                 f.write(json.dumps({"op": "Reset", "numTable": "general", "timeTable": "general"}) + "\n")
                 for e in hist:
@@ -674,7 +688,7 @@ def stage_edges(ctx, st):
     out = os.path.join(ctx.work, "edges-%s-trace.ndjson" % st["name"])
     stats = os.path.join(ctx.work, "edges-%s-stats.json" % st["name"])
     msg = run_driver(ctx, ["replay", "-in", inp, "-out", out, "-backends", st.get("backends", "bolt"),
-                           "-par", "14", "-stats", stats])
+                           "-par", "14", "-stats", stats] + (["-grid"] if st.get("copies") else ["-rename", str(ctx.seed + st.get("seed_off", 0))]))
     ctx.log("edges: %d model states, %d operation instances (%d reads, %d writes) -> %d histories, %d events; %s"
             % (len(states), len(events), len(reads), len(writes), nh, ne, msg.strip().splitlines()[-1]))
     traces = split_traces(out)
